@@ -210,6 +210,19 @@ def function_inputs(target, seed=0, n=400):
             xi, xl = seg(end, 'x')
             yi, yl = seg(end if rng.random() < 0.9 else end + 0.5, 'y')
             yield dict(x_intervals=xi, x_labels=xl, y_intervals=yi, y_labels=yl)
+    if target.startswith('pattern.') and target.split('.')[1] in ('establishment_FPR', 'occurrence_FPR', 'three_layer_FPR', 'standard_FPR'):
+        def pat():
+            base = sorted({(float(rng.randint(0, 8)), float(rng.randint(55, 72))) for _ in range(rng.randint(1, 4))})
+            occs = []
+            for _ in range(rng.randint(1, 3)):
+                sh = float(rng.randint(0, 16))
+                occs.append([[t + sh, p] for t, p in base] if rng.random() < 0.7 else
+                            [list(e) for e in sorted({(float(rng.randint(0, 20)), float(rng.randint(55, 72))) for _ in range(rng.randint(1, 3))})])
+            return occs
+        for _ in range(n):
+            rp = [pat() for _ in range(rng.randint(0, 3))]
+            ep = [pat() for _ in range(rng.randint(0, 3))] if rng.random() < 0.8 else [[list(map(list, o)) for o in p] for p in rp]
+            yield dict(reference_patterns=rp, estimated_patterns=ep)
     if target == 'key.weighted_score':
         ks = ['C major', 'c minor', 'G major', 'a minor', 'A major', 'e minor', 'Eb major', 'd# minor', 'X', 'x', 'F# other', 'Gb other', 'B major', 'Cb' ]
         ks = [k for k in ks if ' ' in k or k.lower() == 'x']
